@@ -33,7 +33,9 @@ COMPOUNDS = {
     'pseudo': ['a:hover', '.a:first-child', 'li:last-child', '.b::before', 'p::first-line', 'a:link'],
     'attr': ['a[href]', '.a[x="1"]', 'input[type=text]', 'a[href^="http"]', '[data-x]',
              # '?' inside the string: Identifier encodes combinators as '?>?' internally (seeded C01-4; repaired defect C01-qmark-pair)
-             'a[href*="?page="]', 'a[href="x?y?z"]', '[t="?>?"]', 'a[h="?a?"]', 'a[href$="?"]', 'a[href="/s?q=a+b&r=~c"]'],
+             'a[href*="?page="]', 'a[href="x?y?z"]', '[t="?>?"]', 'a[h="?a?"]', 'a[href$="?"]', 'a[href="/s?q=a+b&r=~c"]',
+             # blanks inside the string are part of the attribute value (repaired defect C01-attr-blanks)
+             'a[t="a  b"]', "[u='x   y  z']"],
     'func-pseudo': ['li:nth-child(2n+1)', '.a:not(.b)', 'p:lang(en)'],
     'universal': ['*'],
 }
